@@ -299,8 +299,9 @@ class Check:
     # ------------------------------------------------------------ finish
     def finish(self, level="proof", rule="", samples=None, assumptions=None, extra=None):
         cov = dict(self.coverage)
-        cov["obligations"] = self.obligations
-        cov["discharged"] = self.discharged
+        if self.obligations >= 1:
+            cov["obligations"] = self.obligations
+            cov["discharged"] = self.discharged
         cov["checker_cmd"] = self.checker_cmd or "none"
         cov["trusted_base"] = self.trusted + ["%s: %s" % kv for kv in self.assumptions_text.items()]
         cov["rule"] = rule
